@@ -91,3 +91,16 @@ class AllocOp(IRDLOperation):
         if isinstance(alignment, int):
             alignment = IntegerAttr(alignment, 64)
         return cls(tuple(SSAValue.get(ds) for ds in dynamic_sizes), (), MemRefType(return_type, shape, layout, memory_space), alignment)
+
+
+class CopyOp(Operation):
+    def __init__(self, source, destination):
+        self._init_op([source, destination], [], [])
+
+    @property
+    def source(self):
+        return self.operands[0]
+
+    @property
+    def destination(self):
+        return self.operands[1]
